@@ -59,11 +59,11 @@ type Result struct {
 }
 
 type Ctx struct {
-	Tier    string
-	Seed    int64
-	Shard   int
-	NShards int
-	Variant string
+	Tier     string
+	Seed     int64
+	Shard    int
+	NShards  int
+	Variant  string
 	ReplayID string
 
 	res      *Result
